@@ -643,21 +643,10 @@ func c10DiffClass(kind, class, in, got string) string {
 		return "nan-changed"
 	}
 	if kind == "ppc_fp128" && len(in) == 35 && len(got) == 35 {
-		// a canonical pair (high = the double nearest to the sum, low = the
-		// remainder, low not -0.0) is exactly what the library holds and splits
-		// again: it must come back unchanged (the listed findings are about the
-		// other pairs)
-		hb, e1 := strconv.ParseUint(in[3:19], 16, 64)
-		lb, e2 := strconv.ParseUint(in[19:], 16, 64)
-		if e1 == nil && e2 == nil {
-			hi, lo := math.Float64frombits(hb), math.Float64frombits(lb)
-			if !math.IsInf(hi, 0) && !math.IsNaN(hi) && !math.IsInf(lo, 0) && !math.IsNaN(lo) && lb != 1<<63 && (hi != 0 || lb == 0) {
-				sum := new(big.Float).SetPrec(2300).SetFloat64(hi)
-				sum.Add(sum, new(big.Float).SetPrec(2300).SetFloat64(lo))
-				if h2, _ := sum.Float64(); h2 == hi {
-					return "canonical-pair-changed"
-				}
-			}
+		// a canonical pair is exactly what the library holds and splits again: it
+		// must come back unchanged (the listed findings are about the other pairs)
+		if ppcCanonicalPair(in) {
+			return "canonical-pair-changed"
 		}
 		if in[:19] == got[:19] {
 			return "low-double-changed"
@@ -668,4 +657,26 @@ func c10DiffClass(kind, class, in, got string) string {
 		class = class[i+1:]
 	}
 	return class
+}
+
+// ppcCanonicalPair reports whether a 0xM literal of 32 digits is a canonical
+// ppc_fp128 pair: finite, high = the double nearest to the sum of the two, low
+// the remainder and not -0.0 (zero high only with zero low).
+func ppcCanonicalPair(lit string) bool {
+	if len(lit) != 35 || !strings.HasPrefix(lit, "0xM") {
+		return false
+	}
+	hb, e1 := strconv.ParseUint(lit[3:19], 16, 64)
+	lb, e2 := strconv.ParseUint(lit[19:], 16, 64)
+	if e1 != nil || e2 != nil {
+		return false
+	}
+	hi, lo := math.Float64frombits(hb), math.Float64frombits(lb)
+	if math.IsInf(hi, 0) || math.IsNaN(hi) || math.IsInf(lo, 0) || math.IsNaN(lo) || lb == 1<<63 || (hi == 0 && lb != 0) {
+		return false
+	}
+	sum := new(big.Float).SetPrec(2300).SetFloat64(hi)
+	sum.Add(sum, new(big.Float).SetPrec(2300).SetFloat64(lo))
+	h2, _ := sum.Float64()
+	return h2 == hi
 }
